@@ -146,3 +146,15 @@ func c42Prune(ls *LedgerStoreImp, header *types.Header) bool {
 	}
 	return false
 }
+
+// executeBlock stand-in for this property: like the real executeBlock it builds the block's write set in an
+// overlay obtained from the state store (so that a pre-execution sharing or recycling that overlay is visible).
+func c42Exec(ls *LedgerStoreImp, block *types.Block) (store.ExecuteResult, error) {
+	ov := ls.stateStore.NewOverlayDB()
+	ov.Put([]byte{0x05, 'b', 'a', 'l'}, block.Header.TransactionsRoot[:8])
+	ov.Put([]byte{0x05, 'h', byte(block.Header.Height)}, block.Header.TransactionsRoot[8:12])
+	var res store.ExecuteResult
+	res.WriteSet = ov.GetWriteSet()
+	res.Hash = ov.ChangeHash()
+	return res, nil
+}
